@@ -17,6 +17,9 @@ R01.6 lane data pointers are 64-bit quantities: in every kernel, an arithmetic i
       carry when a buffer crosses a 4 GiB boundary.
 R01.7 block loops keep their accumulators: in no kernel is a state location re-loaded in every loop iteration, left
       unwritten inside the loop and written back from a loop-computed register only afterwards.
+R01.9 byte-order masks are constants: in every kernel the control operand of each (v)pshufb has, on every path, been
+      loaded from constant data (directly, by broadcast, or through register copies) - a mask loaded once before
+      the block loop and then used as scratch inside it shuffles every block but the first with garbage.
 R01.8 stream conservation in the context layer (lib/ctxrules.py on the IR skeleton, lib/irskel.py): for every SIMD
       context layer and a grid of (flags, carried bytes, len) around every block and padding boundary, with the
       manager modelled as handing the submitted job back at once, the jobs submitted continue the stream exactly
@@ -305,6 +308,10 @@ def run(chk):
     import mhrules
     kn = sorted(n for v in kernels.values() for n in v)
     nls = mhrules.loop_state_rule(chk, "R01.7", lib, "^(" + "|".join(re.escape(x) for x in kn) + ")$")
+    # R01.9
+    nsm, nsh = mhrules.shuffle_mask_rule(chk, "R01.9", lib, "^(" + "|".join(re.escape(x) for x in kn) + ")$")
+    chk.floor("kernels checked for constant byte-shuffle masks", nsm, 20)
+    chk.floor("byte shuffles with a register mask judged", nsh, 300)
     chk.floor("kernels with loops checked for accumulator discipline", nls, 25)
     # R01.2
     mods = ir.load_modules([u for u in units if u["kind"] == "c" and c20.CTX_UNIT.match(u["src"])])
